@@ -1,6 +1,17 @@
 //! Reference model of a decibel-valued parameter moved by linear tweens with immediate start,
 //! updated once per internal chunk and interpolated linearly (in decibels) inside the chunk.
 
+thread_local! {
+	static EDGE_HIT: std::cell::Cell<bool> = const { std::cell::Cell::new(false) };
+}
+
+/// true (once) if a gain was evaluated within 2e-3 dB of the -60 dB silence edge since the last
+/// call: there the amplitude jumps between 0.001 and 0, and which side an interpolated value
+/// lands on depends on the last bit of f32 arithmetic the reference does not reproduce
+pub fn take_edge_hit() -> bool {
+	EDGE_HIT.with(|e| e.replace(false))
+}
+
 #[derive(Debug, Clone)]
 pub struct DbParam {
 	pub prev_db: f64,
@@ -48,6 +59,9 @@ impl DbParam {
 	pub fn amp_at(&self, a: f64) -> f64 {
 		// the crate interpolates in f32
 		let db = self.prev_db as f32 + (self.value_db as f32 - self.prev_db as f32) * a as f32;
+		if (db + 60.0).abs() < 2e-3 {
+			EDGE_HIT.with(|e| e.set(true));
+		}
 		db_to_amp(db as f64)
 	}
 	pub fn amp(&self) -> f64 {
